@@ -19,4 +19,9 @@ theorem listing_structure : Facts.listingConds = some ["err != nil", "args.Filte
 theorem lsh_parameters : Facts.lshThreshold = some 100 ∧ Facts.lshTrees = some 5 ∧ Facts.searchK = some 200 ∧
     Facts.signalEnum = some ["StopSearch", "PointAccepted", "PointChecked", "PointIgnored"] := ⟨rfl, rfl, rfl, rfl⟩
 
+/-- a K-nearest traversal starts with an unbounded radius (so `hpDist h ≤ maxRadius` of
+    `C04.knn_finds_something` holds for every non-NaN distance), and prunes only far-side leaves -/
+theorem lsh_initial_radius : Facts.lshInitialRadius = some "math.Inf(1)" ∧
+    Facts.lshPruneCondition = some "item.priority < 0 && -item.priority > radius && node.isLeaf()" := ⟨rfl, rfl⟩
+
 end Syzgy.Tie.Search
